@@ -333,6 +333,24 @@ def well_sorted(t):
     return True
 
 
+def ev_top(t, env, st):
+    """value of the whole expression: a piecewise none of whose conditions holds is NaN (the printer's documented
+    fallback); anywhere deeper an undefined sub-expression makes the point undefined"""
+    if t[0] == 13:
+        for e, c in t[1:]:
+            cv = ev(c, env, st)
+            if not isinstance(cv, bool):
+                raise Undef()
+            if cv:
+                return ev_top(e, env, st)
+        return float('nan')
+    return ev(t, env, st)
+
+
+def has_piecewise(t):
+    return any(s[0] == 13 for s in subtrees(t))
+
+
 def has_factorial(t):
     return any(s[0] == 7 and s[1] == bridge.FN_IDS['factorial'] for s in subtrees(t))
 
@@ -344,6 +362,9 @@ def has_nested_relation(t):
 def points(case_key, t):
     rng = random.Random('pt' + case_key)
     out = []
+    if has_piecewise(t) and not has_factorial(t):      # one point in every region of the thresholds 1, 2, 3 on v0
+        for x0 in (0.5, 1.5, 2.5, 3.5):
+            out.append([x0, 0.7, 1.3, 2.2, 0.9, 1.7][:NV + 2])
     for j in range(10 if has_nested_relation(t) else 3):
         if has_factorial(t):
             out.append([rng.randint(0, 5) for _ in range(NV + 2)])
@@ -361,7 +382,7 @@ def oracle(key, tree, printed):
     for vals in points(key, tree):
         st = {'scale': 0.0}
         try:
-            want = ev(tree, vals, st)
+            want = ev_top(tree, vals, st)
         except Undef:
             continue
         except (OverflowError, ZeroDivisionError, ValueError):
@@ -378,7 +399,9 @@ def oracle(key, tree, printed):
                         {'printed': printed, 'point': vals, 'expected': want, 'error': str(e)}))
             continue
         st0['n'] += 1
-        if isinstance(want, bool):
+        if isinstance(want, float) and math.isnan(want):
+            ok = isinstance(got, float) and math.isnan(got)
+        elif isinstance(want, bool):
             ok = isinstance(got, bool) and got == want
         else:
             ok = (not isinstance(got, (bool, complex))) and isinstance(got, (int, float)) and \
@@ -699,6 +722,27 @@ def unitpow_cases():
     return out
 
 
+def nested_pw_cases():
+    """nested piecewise: inner with / without otherwise x outer with / without otherwise x position of the inner one
+    (conditional piece, later conditional piece, otherwise piece, inside arithmetic / a call in a piece, bare)"""
+    x, y, z = X, Y, Z
+    c1, c2, c3 = Rel(2, x, I(1)), Rel(2, x, I(2)), Rel(2, x, I(3))
+    inners = [('io', Pw((y, c1), (z, TRUE))), ('in', Pw((y, c1), (z, c2))), ('io3', Pw((y, c1), (Mul(y, y), c2), (z, TRUE)))]
+    out = []
+    for iname, inner in inners:
+        wraps = [('bare', inner), ('sum', Add(inner, I(1))), ('neg', Mul(I(-1), inner)), ('call', Fn('exp', inner))]
+        for wname, h in wraps:
+            for oname, tail in (('oo', [(W, TRUE)]), ('on', [])):
+                forms = [('cond1', [(h, c2), (Mul(y, z), c3)]), ('cond2', [(Mul(y, z), c1), (h, c3)]),
+                         ('both', [(h, c2), (h, c3)])]
+                for fname, pieces in forms:
+                    out.append(('npw:%s:%s:%s:%s' % (iname, wname, oname, fname), Pw(*(pieces + tail))))
+                out.append(('npw:%s:%s:%s:other' % (iname, wname, oname), Pw((Mul(y, z), c2), (h, TRUE))))
+            out.append(('npw:%s:%s:free' % (iname, wname), Add(h, y)))
+            out.append(('npw:%s:%s:top' % (iname, wname), h))
+    return out
+
+
 def relrel_cases():
     """relations whose operands are relations / truth values: 6 x 6 kinds x (left, right, both), constants, and the
     same inside and / or / piecewise conditions.  Eq / Ne of two truth values is well-sorted (value-checked);
@@ -797,6 +841,9 @@ def gen_cases(seed, tier, extra=0):
     for name, t in relrel_cases():
         for evf in (False, True):
             cases.append({'tree': t, 'ev': evf, 'kind': 'relrel'})
+    for name, t in nested_pw_cases():
+        for evf in (False, True):
+            cases.append({'tree': t, 'ev': evf, 'kind': 'nestedpw'})
     for name, t in unitpow_cases():
         for evf in (False, True):
             cases.append({'tree': t, 'ev': evf, 'kind': 'unitpow'})
